@@ -25,18 +25,18 @@ CLAIMED = {
             'absorption with index deletion, stable sort); tied to the code by comparing the simplified structure on '
             'exhaustive and random trees.',
             'NOT / TRUE / FALSE branches of boolean.py are unreachable from license expressions and not modelled.', 'DESIGN.md section 4 C06'),
-    'C07': ('Coq proof of the canonical shape of simplify results (partial: idempotence and rewrite invariance are decided by '
-            'the correspondence and the rewrite oracle) + rewrite-sequence generator against model and implementation',
-            'Proved: every node of simplify(e) has >= 2 operands, none of its own kind, no two equal operands, operands in '
-            'sort order, recursively; the sort comparison is asymmetric. Not proved in Coq: idempotence and invariance under '
-            'the four rewrites; these are exercised on the implementation (text equality) and on the model (structure equality) '
-            'for every generated tree and rewrite sequence.',
-            'Partial proof, see Props/C07.v header.', 'DESIGN.md section 4 C07'),
-    'C08': ('Coq proof (is_equivalent reflexive, symmetric, transitive, sound for every valuation; contains reflexive, invariant '
-            'under equivalent arguments, WITH contains its parts, contained licenses occur in the container) + pair correspondence '
-            'on three Licensing instances',
-            'Theorems over all pairs / triples of expression trees of the model; the rewrite clause (equivalence of rewritten '
-            'variants) is decided by the oracle and the correspondence, not by a theorem.',
+    'C07': ('Coq proof, full statement on the model: simplify is idempotent; simplify e = simplify e\' for every sequence of the rewrites '
+            '(operands reordered / repeated, regrouped by associativity, joined by an absorbed operand) applied at any node; the result is '
+            'canonical (>= 2 operands, none of the own kind, no two equal, strictly sorted, recursively) + rewrite-sequence generator '
+            'against model and implementation',
+            'Proofs/Normal.v: on canonical forms == is identity and the sort comparison a strict total order (mutual induction on size); '
+            'what absorption leaves = the operands no other operand absorbs (loop invariant; absorption transitive and antisymmetric); the '
+            'result of one node depends only on the members of its flattened operands; normal forms are fixed points.',
+            'NOT / TRUE / FALSE branches of boolean.py are unreachable from license expressions and not modelled.', 'DESIGN.md section 4 C07'),
+    'C08': ('Coq proof, full statement on the model: is_equivalent reflexive, symmetric, transitive, sound for every valuation, True for '
+            'every pair related by the rewrites of C07; contains reflexive, invariant under equivalent arguments, WITH contains its parts, '
+            'contained licenses occur in the container + pair correspondence on three Licensing instances',
+            'Theorems over all pairs / triples of expression trees of the model; rewrites_equivalent from the rewrite invariance of simplify.',
             'Instance independence is structural in the model (the functions take no table) and is checked on three instances.', 'DESIGN.md section 4 C08'),
     'C02': ('Coq proof of parser completeness for the grammar (every nesting depth, arity, redundant parentheses) and of the '
             'greedy WITH grouping + exhaustive token strings and grammar-generated strings: correspondence and independent reference parser',
@@ -76,7 +76,7 @@ CLAIMED = {
     'C09': ('Coq proof (dedup total, no repeated rendering among siblings at any depth, idempotent, truth-table preserving for '
             'valuations that respect renderings; refutation witness for the rendering-collision finding; relation refused with '
             'TypeError) + reference-implementation oracle and correspondence on trees with duplicates and on combine_expressions',
-            'Theorems for every well-formed expression tree of the model; operand order and "first position kept" are decided '
+            'Theorems for every well-formed expression tree of the model; operand order: the renderings kept at a node are the renderings of its deduplicated operands in first-occurrence order (uniq_order, dedup_node_order); also checked '
             'by the reference deduplication in the oracle and by the structural correspondence.',
             'Known finding D10 (different operands with equal renderings) is listed in known_findings.txt.', 'DESIGN.md section 4 C09'),
     'C10': ('Coq proof (listings are projections of the literals: all occurrences in order, each once under uniqueness, WITH '
